@@ -13,12 +13,12 @@ from vlib.cli import run_cli
 
 ID = 'C18'
 LEVEL = 'exploration'
-RULE = ('Generated histories (model-based, 5..25 steps) over a fresh copy of a synthetic database directory whose genome file is put into a drawn valid SQLite configuration (default rollback journal, WAL, PERSIST, other page size, user_version, older table layout without the optional extra columns, additional tables / indices / views). Steps: CLI query (files / list '
+RULE = ('Generated histories (model-based, 5..25 steps) over a fresh copy of a synthetic database directory whose genome file is put into a drawn valid SQLite configuration (default rollback journal, WAL, PERSIST, other page size, user_version, older table layout without the optional extra columns, additional tables / indices / views, WAL mode with the last committed transaction still in the -wal file beside the genome file). Steps: CLI query (files / list '
         '/ -s; csv / json / archive; --strict), dist --use-db, dist with mismatching parameters (fails), signatures info -d (plain / -j / '
         '-i / -jp), signatures create --db-params, tree, commands with bad arguments or missing files; library: ReferenceDatabase.load_from_dir '
         '+ query() (optionally left open across steps), load_genomeset / file_sessionmaker default session followed by an ORM edit (change '
         'attribute / add Genome / delete Taxon) and a drawn sequence of flush / autoflushing query / commit / rollback / close, opening the '
-        'signature file twice, closing kept handles. Invariant after every step: sha256 and size of the .gdb and .gs equal their initial '
+        'signature file twice, taking / releasing an exclusive advisory lock on the signature file from another open file description, closing kept handles. Invariant after every step: sha256 and size of the .gdb and .gs equal their initial '
         'values; a raw SELECT on the edited session\'s own connection still shows the original rows (nothing flushed); commit() raised. '
         'Non-trivial: a history with a mutation attempt or a failing command between two successful queries; distinct by case hash.')
 ASSUMPTIONS = ['only the bytes of the genome file and the signature file are compared (the statement does not speak about other files in the directory)',
